@@ -147,6 +147,7 @@ class C04(Prop):
                 ws_ = [np.asarray(e["w"], dtype=float)[None] for e in extra]; ws_.insert(row, w[None])
                 Wfull = np.vstack(ws_)
             kw["batch_size"] = case["batch"]
+        core.watch(B); core.watch(Wfull); core.watch(w)
         # warm-up: the same fit on a sibling system (other baseline) must leave no trace
         gs.warm(lambda: gs.make_estimator(gs.sibling(sys), w=w).fit(B + 0.75, **kw))
         core.drain_hooks()
